@@ -181,3 +181,137 @@ func abandonedThenReused(rec *vr.Rec, reps int) {
 }
 
 var _ = vr.Seed
+
+// uploadToForeignServer: the connection uploads (POST/PUT with Block1) to a server that follows RFC 7959 2.3 to the
+// letter: every response to a block carries the Block1 option of that block - the 2.31 for the intermediate ones AND the
+// final 2.04 (NUM of the last block, M=0). The final response is the result of the call: it returns 2.04, the server
+// holds exactly the uploaded bytes, and no block is sent once the body is complete.
+func uploadToForeignServer(rec *vr.Rec, reps int) {
+	for rep := 0; rep < reps; rep++ {
+		kind := []string{"udp", "tcp"}[rep%2]
+		echoFinal := (rep/2)%3 != 2
+		szx := rep % 3
+		bs := 16 << uint(szx)
+		size := []int{bs*3 + 4, bs * 3, bs + 1, bs * 6}[(rep/6)%4]
+		body := bodyOf(uint32(99000+rep), size)
+		c := map[string]any{"scenario": "upload to a server that echoes Block1 in every response", "transport": kind, "block_size": bs, "body_bytes": size, "final_response_carries_block1": echoFinal}
+		var inject func(m ref.Msg)
+		var sent func() []ref.Msg
+		var post func(ctx context.Context) (uint8, error)
+		var closef func()
+		if kind == "udp" {
+			s := sim.NewMemSession()
+			cc := sim.NewUDPConn(s, sim.UDPOpts{Blockwise: true, SZX: blockwise.SZX(szx), BWTimeout: 3 * time.Second, Pool: pool.New(8, 2048)})
+			inject = func(m ref.Msg) { _ = cc.Process(nil, ref.EncodeUDP(m)) }
+			sent = func() []ref.Msg {
+				var out []ref.Msg
+				for _, d := range s.Log() {
+					if m, err := ref.ParseUDP(d.Data); err == nil {
+						out = append(out, m)
+					}
+				}
+				return out
+			}
+			post = func(ctx context.Context) (uint8, error) {
+				m, err := cc.Post(ctx, "/up", 42, bytes.NewReader(body))
+				if err != nil {
+					return 0, err
+				}
+				defer cc.ReleaseMessage(m)
+				return uint8(m.Code()), nil
+			}
+			closef = func() { _ = cc.Close() }
+		} else {
+			sc := sim.NewScriptConn()
+			cc, err := sim.NewTCPConn(sc, sim.TCPOpts{Pool: pool.New(8, 2048), Mutate: func(cfg *tcpclient.Config) {
+				cfg.BlockwiseSZX = blockwise.SZX(szx)
+			}})
+			if err != nil {
+				continue
+			}
+			sim.AnnounceBlockwise(sc, cc, ref.EncodeTCP(ref.Msg{Code: 7<<5 | 1, Opts: []ref.Opt{{ID: 2, Val: ref.Uint(1152)}, {ID: 4, Val: nil}}}))
+			inject = func(m ref.Msg) { sc.Feed(ref.EncodeTCP(m)) }
+			sent = func() []ref.Msg { ms, _ := ref.ParseTCPStream(sc.Written()); return ms }
+			post = func(ctx context.Context) (uint8, error) {
+				m, err := cc.Post(ctx, "/up", 42, bytes.NewReader(body))
+				if err != nil {
+					return 0, err
+				}
+				defer cc.ReleaseMessage(m)
+				return uint8(m.Code()), nil
+			}
+			closef = func() { _ = cc.Close() }
+		}
+		stop := make(chan struct{})
+		peerDone := make(chan struct{})
+		var assembled []byte
+		complete, afterEnd := false, 0
+		go func() {
+			defer close(peerDone)
+			seen := 0
+			for {
+				select {
+				case <-stop:
+					return
+				default:
+				}
+				ms := sent()
+				for ; seen < len(ms); seen++ {
+					m := ms[seen]
+					if m.Code != 2 {
+						continue
+					}
+					v, has := m.GetUint(27)
+					if !has {
+						// not sliced at all
+						assembled = append(assembled[:0], m.Payload...)
+						complete = true
+						inject(ref.Msg{Type: 2, Code: 0x44, MID: m.MID, Token: m.Token})
+						continue
+					}
+					if complete {
+						afterEnd++
+						inject(ref.Msg{Type: 2, Code: 0x88, MID: m.MID, Token: m.Token}) // 4.08
+						continue
+					}
+					num, more := int(v>>4), v&8 != 0
+					if num*(16<<uint(v&7)) == len(assembled) {
+						assembled = append(assembled, m.Payload...)
+					}
+					echo := []ref.Opt{{ID: 27, Val: ref.Uint(v)}}
+					if more {
+						inject(ref.Msg{Type: 2, Code: 0x5f, MID: m.MID, Token: m.Token, Opts: echo})
+					} else {
+						complete = true
+						if !echoFinal {
+							echo = nil
+						}
+						inject(ref.Msg{Type: 2, Code: 0x44, MID: m.MID, Token: m.Token, Opts: echo})
+					}
+				}
+				time.Sleep(50 * time.Microsecond)
+			}
+		}()
+		ctx, cancel := context.WithTimeout(context.Background(), 4*time.Second)
+		code, err := post(ctx)
+		cancel()
+		time.Sleep(300 * time.Microsecond)
+		close(stop)
+		<-peerDone
+		rec.Eval(fmt.Sprintf("upload-foreign|%s|%d|%d|%v", kind, bs, size, echoFinal))
+		rec.Count("uploads_to_a_foreign_server", 1)
+		switch {
+		case err != nil:
+			rec.Violation("C04/"+kind+"/upload-to-foreign-server/call-failed", fmt.Sprintf("the server received the whole body (%v, %d of %d bytes) and answered 2.04; the call returned %v", complete, len(assembled), size, err), c)
+		case code != 0x44:
+			rec.Violation("C04/"+kind+"/upload-to-foreign-server/wrong-final-response", fmt.Sprintf("the call returned %d.%02d; the server's answer to the complete upload was 2.04 (blocks sent after the end: %d)", code>>5, code&31, afterEnd), c)
+		case !bytes.Equal(assembled, body):
+			rec.Violation("C04/"+kind+"/upload-to-foreign-server/"+classify(assembled, body, false), fmt.Sprintf("server assembled %d bytes, uploaded %d", len(assembled), size), c)
+		case afterEnd > 0:
+			rec.Violation("C04/"+kind+"/upload-to-foreign-server/blocks-after-the-end", fmt.Sprintf("%d block(s) were sent after the final one had been answered", afterEnd), c)
+		default:
+			rec.Count("uploads_to_a_foreign_server_exact", 1)
+		}
+		closef()
+	}
+}
